@@ -220,6 +220,14 @@ BilSymVerdict(e) ==
    IN [failed |-> IF bad = {} THEN {} ELSE {"spatial_weight_symmetric"},
        detail |-> IF bad = {} THEN <<>> ELSE LET k == CHOOSE j \in bad : TRUE IN <<k, e.a[k], e.b[k]>>]
 
+\* bilateral filter (C10): the spatial kernel is the Gaussian of the CONFIGURED sigma_space.  With a quasi-constant range kernel
+\* (sigma_color 1000, outlier 1) the outputs r1, r2 for an outlier at distances 1 and 2 satisfy ln(r1 / r2) = 3 / (2 sigma^2);
+\* e.v[k] = round(1e6 * ln(r1 / r2) * 2 sigma^2 / 3) for the k-th probed sigma (computed by the harness: TLC has no logarithm)
+BilLawVerdict(e) ==
+   LET bad == {k \in 1..Len(e.v) : Abs(e.v[k] - 1000000) > 2000}
+   IN [failed |-> IF bad = {} THEN {} ELSE {"spatial_weight_gaussian"},
+       detail |-> IF bad = {} THEN <<>> ELSE LET k == CHOOSE j \in bad : TRUE IN <<k, e.sigma1000[k], e.v[k]>>]
+
 \* ------------------------------------------------------------------ occlusion / mismatch filling (C14)
 \* e: pass, rows, cols, before: [d, vm], after: [d, vm]   (d scaled by 8; NaN sentinel for NaN)
 FillPixelFail(e, x) ==
@@ -320,6 +328,7 @@ Verdict(e) == CASE e.step = "matching_cost" -> McVerdict(e)
                 [] e.step = "regularize" -> RegVerdict(e)
                 [] e.step = "filter" -> FiltVerdict(e)
                 [] e.step = "bilateral_symmetry" -> BilSymVerdict(e)
+                [] e.step = "bilateral_law" -> BilLawVerdict(e)
                 [] e.step = "cross_check" -> XcVerdict(e)
                 [] e.step = "refinement" -> RefVerdict(e)
                 [] e.step = "flags" -> FlagVerdict(e)
